@@ -91,7 +91,7 @@ func (t *TimeTZ) MarshalJSON() ([]byte, error) {
 //   - 15:04:05.999999999Z07:00
 //   - 15:04:05.999999999Z07
 func (t *TimeTZ) UnmarshalJSON(data []byte) error {
-	str := data[1 : len(data)-1] // Unquote
+	str := unquote(data)
 
 	// Figure out which TZ format we need.
 	var format string
@@ -101,15 +101,15 @@ func (t *TimeTZ) UnmarshalJSON(data []byte) error {
 	)
 	size := len(str)
 	switch {
-	case str[size-secPlace] == '-' || str[size-secPlace] == '+':
+	case size >= secPlace && (str[size-secPlace] == '-' || str[size-secPlace] == '+'):
 		format = timeTZSecondFormat
-	case str[size-minPlace] == '-' || str[size-minPlace] == '+':
+	case size >= minPlace && (str[size-minPlace] == '-' || str[size-minPlace] == '+'):
 		format = timeTZMinuteFormat
 	default:
 		format = timeTZHourFormat
 	}
 
-	tim, err := time.Parse(format, string(str))
+	tim, err := time.Parse(format, str)
 	if err != nil {
 		return fmt.Errorf("%w: Cannot parse %s as %q", ErrSQLType, data, format)
 	}
